@@ -61,6 +61,11 @@ func (r *TypeReg) ID(t types.Type) int {
 	return id
 }
 
+// library struct types whose exported fields the repository reads and writes: modelled like its own structs
+func isModelledLibStruct(pkgPath, name string) bool {
+	return pkgPath == "net/http" && (name == "Client" || name == "Request" || name == "Response")
+}
+
 func isOpaquePkg(path string) bool {
 	switch path {
 	case "sync", "sync/atomic", "time", "context", "net/http", "io", "bytes", "mime/multipart", "os", "net/url", "regexp", "encoding/json":
@@ -162,7 +167,7 @@ func (u *Unit) sortOf(t types.Type) Sort {
 			if pp == "time" && obj.Name() == "Duration" {
 				return SInt
 			}
-			if pp == "net/http" && obj.Name() == "Client" {
+			if isModelledLibStruct(pp, obj.Name()) {
 				return Sort(u.structInfo(tt).Name)
 			}
 			if isOpaquePkg(pp) {
